@@ -123,6 +123,10 @@ class Subroutine:
             netqasm_version=self.netqasm_version,
             app_id=self.app_id,
         )
+        encoding.check_fits(metadata, app_id=self.app_id)
+        for i, version_byte in enumerate(self.netqasm_version):
+            if metadata.netqasm_version[i] != version_byte:
+                raise ValueError(f"version number {version_byte} does not fit in a byte")
         return [metadata] + [instr.serialize() for instr in self.instructions]
 
     def __bytes__(self):
